@@ -15,7 +15,7 @@ fn c09(group: &str, name: &str) -> Option<&'static str> {
         ("WalMessage", "Write") => "driven: write_durable (ack), write_fire_and_forget (no ack), cancelled callers, in every policy",
         ("WalMessage", "SyncTick") => "driven: sync_tick in every policy, every position of a burst",
         ("WalMessage", "TruncateUpTo") => "driven: truncate(T) in every policy",
-        ("WalMessage", "Shutdown") => "driven: shutdown() at every clean incarnation end (EverySecond: its final fsync is modelled)",
+        ("WalMessage", "Shutdown") => "driven: shutdown() at every clean incarnation end (EverySecond: its final fsync is modelled) AND as a message racing with the writers of a burst (top of the loop / inside the group-commit wait / drain loop: the actor stops or goes on, later callers get I/O errors)",
         ("FsyncPolicy", "Always") => "driven: model Policy.always (group commit); theorem durable_survives",
         ("FsyncPolicy", "EverySecond") => "driven: model Policy.everySecond; theorems everysec_disk_eq_always / everysec_durable_once_tick_synced",
         ("FsyncPolicy", "No") => "driven: model Policy.no; theorem no_mode_never_syncs",
@@ -104,13 +104,13 @@ pub fn audit(prop: &str) -> serde_json::Value {
         "C09" => json!([
           {"class": 1, "topic": "entry paths / variants never driven",
            "covered": "WalMessage variants, FsyncPolicy variants, WalError variants, the pub fns of WalActorHandle, WalStore / WalFileWriter trait fns, WalConfig fields and constructors are ENUMERATED FROM THE SOURCE (build.rs wal_scan) and each is mapped to how it is driven (api_coverage); all three policies run on the real actor against the model (Actor.stepP); the production path ReplicatedShardedState::execute -> set_wal_handle -> write_durable / write_fire_and_forget is driven with the deltas captured through the delta sink (ops GQ); a new variant / fn / field fails the check (C09:coverage:*-not-driven)",
-           "open": "WalStore::exists has no caller in the WAL code; the 5 s ack timeout of write_durable and the 'actor unavailable' branch (send on a closed mailbox) are not driven"},
+           "open": "WalStore::exists has no caller in the WAL code; the 5 s ack timeout of write_durable is not driven"},
           {"class": 2, "topic": "input alphabet", "covered": "payload sizes 0..40 and equal sizes, stamps incl. u64::MAX and ties; production-path deltas of SET / DEL / HSET / INCR / multi-key DEL with binary values and a non-ASCII key", "open": "payload CONTENT is C14's subject (every CRDT kind through from_delta)"},
           {"class": 3, "topic": "comparisons at equality", "covered": "size >= max_file_size: thresholds = header + k entries, +-1, and <= header (0, 1, 16); entries_since_sync < group_commit_max_entries: bursts of exactly / more than max_entries (incl. 0 and the default 64 crossed by 300 writers); entries_since_sync > 0: ticks / shutdown with and without unsynced entries; truncate thresholds equal to stamps", "open": ""},
           {"class": 4, "topic": "configuration", "covered": "every WalConfig field the actor reads is generated: fsync_policy (3), max_file_size (0, 1, 16, 17, header+k(+-1), 1 MiB), group_commit_max_entries (0, 1, 2, 3, 8, 64), group_commit_max_wait (0, 200 us, 5 ms); the configuration is built by /repo's own constructors (always_fsync / every_second / default) and, for a quarter of the workloads, passed through serde_json; the constructors' fields and the serde names of the policies are compared with the model's table (CFG / CFGP ops, theorem config_constructors_policy)", "open": "enabled / truncation_check_interval are read by the server start-up code only"},
           {"class": 5, "topic": "capacity thresholds", "covered": "WAL_CHANNEL_CAPACITY (value scanned from the source): capacity + 44 concurrent write_durable callers (senders block, served in order, batches cut at 64) and one caller flooding the mailbox with fire-and-forget writes (the excess is dropped: the model gets exactly the first CAPACITY)", "open": "pending_acks initial capacity 64 is an allocation hint"},
           {"class": 6, "topic": "fault kinds", "covered": "create / append (fail, disk full, torn at every length) / fsync (group commit, closing fsync of rotate, tick, shutdown) / delete failures at every I/O call index, machine dying from a call on, store.list() failing in truncate_before (logged, nothing deleted) and in WalRotator::new (spawn fails), callers cancelled while they wait for their ack, actor task panic reported (C09:actor-panicked)", "open": "open_read / read_all failures inside truncate_before (the file is skipped) are not injected"},
-          {"class": 7, "topic": "history shapes", "covered": "1..3 incarnations over one store ended by clean shutdown or machine crash (EverySecond: crash without the final fsync of shutdown), bursts of 1..5 and of 300 messages, ticks / truncations / fire-and-forget in every position of a burst, a failed tick followed by more ticks, second incarnation after truncation", "open": "very long runs (thousands of rotations) only in the thorough tier"},
+          {"class": 7, "topic": "history shapes", "covered": "1..3 incarnations over one store ended by clean shutdown or machine crash (EverySecond: crash without the final fsync of shutdown), bursts of 1..5 and of 300 messages, ticks / truncations / fire-and-forget in every position of a burst, a failed tick followed by more ticks, second incarnation after truncation, a Shutdown in every position of a burst (observed: handled inside the group-commit wait it does NOT stop the actor — the `return` leaves only the async block — so writes after shutdown() are still accepted and made durable)", "open": "very long runs (thousands of rotations) only in the thorough tier"},
           {"class": 8, "topic": "node-global state", "covered": "one actor per node; the store is shared by successive incarnations (sequence numbering continues, files of earlier incarnations are never re-created: create_never_reuses_existing_name + oracle)", "open": ""},
           {"class": 9, "topic": "observations", "covered": "every ack (result class) with the I/O index at which the caller saw it, the complete call trace, the recovered set (id matched by payload AND stamp) at EVERY crash index, WalActorHandle::fsync_policy(); production path: trace + recovered sets + the instant execute returned", "open": "on the production path the ack itself is not observable (execute only logs a WAL error): compared through the model (op GQ)"},
           {"class": 10, "topic": "finding signatures", "covered": "no open finding; the oracles are unconditional: C09:ack-ok-lost:<cause> (Always), C09:synced-entry-lost:<policy> (model-free: appended + fsynced stays), C09:production-path:replied-before-durable, C09:create-overwrites-existing-file, C09:actor-panicked, C09:config:*", "open": ""},
